@@ -187,7 +187,33 @@ func (a arrM) MarshalZerologArray(arr *zerolog.Array) { ApplyArray(arr, a.ops) }
 // HookM is a hook running a fragment
 type HookM struct{ Ops []Op }
 
-func (h HookM) Run(e *zerolog.Event, level zerolog.Level, msg string) { ApplyEvent(e, h.Ops) }
+// HookCall: what the library handed one invocation of a harness hook (a Hook() hook, or the hook a LevelHook holds
+// for the event's level)
+type HookCall struct {
+	ID       uint64 // the mark the hook's fragment starts with (0: none)
+	Level    zerolog.Level
+	Msg      string
+	Discards bool // the hook's own fragment has a Discard() somewhere: the hooks after it may be handed Disabled
+}
+
+// HookCalls is the trace of hook invocations, kept like Marks (per event: see Case.Run and runNested).  Only written
+// when RecordHookCalls is set, which a sequential driver does once at start-up (hooks also run in the goroutines of
+// the concurrent drivers, which never set it).
+var (
+	HookCalls       []HookCall
+	RecordHookCalls bool
+)
+
+func (h HookM) Run(e *zerolog.Event, level zerolog.Level, msg string) {
+	if RecordHookCalls {
+		hc := HookCall{Level: level, Msg: msg, Discards: hasDiscard(h.Ops)}
+		if len(h.Ops) > 0 && h.Ops[0].K == "mark" {
+			hc.ID = h.Ops[0].ID
+		}
+		HookCalls = append(HookCalls, hc)
+	}
+	ApplyEvent(e, h.Ops)
+}
 
 func callKeyed(recv reflect.Value, key []byte, p *Prim) reflect.Value {
 	m := recv.MethodByName(p.M)
